@@ -43,7 +43,8 @@ def model_check(nc, timeout=1800):
     return C.run_tlc("Relevance.tla", cfg="_gen_Relevance_mc.cfg", timeout=timeout)
 
 
-def build_universe(root, u):
+def build_universe(root, u, repo=None):
+    """repo: the directory of the git repository when it is NOT the project root (the project lives in a sub-directory of it)"""
     os.makedirs(root)
     mode = u["mode"]
     with open(os.path.join(root, "cond_config.toml"), "w") as f:
@@ -55,6 +56,7 @@ def build_universe(root, u):
     hashes = {}
     if mode == "nogit":
         return hashes
+    root = repo or root          # every git command below runs in the repository's top directory
     P.git(root, "init", "-q")
     if mode == "nocommit":
         return hashes
@@ -89,7 +91,13 @@ def universe_worker(job):
     os.dup2(dn, 2)
     try:
         root = os.path.join(d, "p")
-        hashes = build_universe(root, u)
+        if u.get("nested"):
+            # the Conductor project is a sub-directory of the git repository (.git one level up)
+            os.makedirs(root)
+            root = os.path.join(root, "proj")
+            hashes = build_universe(root, u, repo=os.path.join(d, "p"))
+        else:
+            hashes = build_universe(root, u)
         unknown = "0123456789abcdef0123456789abcdef01234567"
         for s in scns:
             if hashes:
@@ -236,6 +244,8 @@ def main(tier):
                 sid += 1
                 by_u[key][1].append(v)
     jobs = list(by_u.values())
+    # every third git universe: the project root is a sub-directory of the repository
+    jobs = [(dict(u, nested=(i % 3 == 2 and u["mode"] in ("git", "nocommit"))), ss) for i, (u, ss) in enumerate(jobs)]
     rows = []
     for r in C.fork_map(universe_worker, jobs, timeout=3000):
         if r is None or isinstance(r, dict):
